@@ -56,7 +56,7 @@ def start_state(kind, start):
     return o
 
 
-VALUES = ["", "v", "w\n:;", None]
+VALUES = ["", "v", "w\n:;", None, "gfx\\banner.png", "a\\"]
 _enum = None
 
 
